@@ -631,6 +631,9 @@ def run(ctx, rep) -> None:
     rep.attempt("gradients_read_after_closure", gradients_read_after_closure, ctx, rep, "C04.6")
     rep.attempt("selector_construction", selector_construction, ctx, rep, "C04.5")
     rep.attempt("global_selector_is_ownership_independent", global_selector_is_ownership_independent, ctx, rep, "C04.5")
+    from .c03 import eigenbasis_evidence_is_the_blocks_own
+
+    rep.attempt("eigenbasis_evidence", eigenbasis_evidence_is_the_blocks_own, ctx, rep, "C04.1")
     from .common import utility_semantics
 
     rep.rule("C04.7", "the pure utilities this property is built on compute what they document (concrete interpretation on small cases)")
